@@ -13,6 +13,12 @@ from harness.lib.framework import Prop, coq_bool, coq_list, coq_opt, coq_str
 
 ROUTES = {("L", "L"): "LL", ("L", "R1a"): "LR", ("R1a", "L"): "RL", ("R1a", "R1a"): "RRsame",
           ("R1a", "R1b"): "RRother", ("R1a", "R2a"): "RRother"}
+# W = a location of another deployment that wraps R1a (what it sees at D is R1a's M); for the copy it is one more remote
+WRAPPED = {("L", "W"): "LR", ("R1a", "W"): "RRother", ("R2a", "W"): "RRother", ("W", "L"): "RL", ("W", "W"): "RRsame"}
+# fan-out: one transfer_data call with two destination locations of the same deployment
+FANOUT = [("L", "R1a", "R1b"), ("R1a", "R1a", "R1b"), ("R2a", "R1a", "R1b"), ("R1a", "R1b", "R1a")]
+ALLROUTES = {**ROUTES, **WRAPPED, ("L", "R1b"): "LR", ("R2a", "R1a"): "RRother", ("R2a", "R1b"): "RRother",
+             ("R1b", "R1b"): "RRsame"}
 SAFE = "abcdefghijklmnopqrstuvwxyzABCXYZ0123456789_.+,:@%=-"
 HOSTILE_NAMES = ["a b", " lead", "trail ", "q'uote", 'd"q', "-dash", "--opt=x", "ünï", "日本", "$HOME", "`id`", "a;b", "a&b",
                  "a|b", "star*", "qm?", "[x]", "back\\slash", "new\nline", "tab\tx", "~", "#c", "(p)", "{b}", "!", "a>b", "é" * 60,
@@ -300,7 +306,7 @@ class C22(Prop):
                 "w": rng.random() < 0.5, "tree": self._tree(rng, tier)}
 
     def gen(self, rng, tier):
-        n = {"quick": 110, "thorough": 900, "extended": 250}[tier]
+        n = {"quick": 60, "thorough": 800, "extended": 220}[tier]
         cases = []
         # the decision tables, cell by cell, on a small fixed tree and a file
         small = {"t": "d", "c": [["a b", {"t": "f", "b": "00ff", "x": True}], ["e", {"t": "d", "c": []}],
@@ -330,6 +336,25 @@ class C22(Prop):
         routes = list(ROUTES)
         for i in range(n):
             cases.append(self._case(rng, tier, routes[i % len(routes)]))
+        wl = list(WRAPPED)
+        for i in range({"quick": 10, "thorough": 90, "extended": 20}[tier]):
+            cases.append(self._case(rng, tier, wl[i % len(wl)]))
+        for i in range({"quick": 10, "thorough": 90, "extended": 20}[tier]):
+            src, d0, d1 = FANOUT[i % len(FANOUT)]
+            c = self._case(rng, tier, (src, d0))
+            c["more"] = [d1]
+            cases.append(c)
+        if tier != "extended":
+            for (src, dst) in WRAPPED:
+                for tree, dstate, dname in ((small, "absent", "other"), (small, "dir", "s"), (fil, "absent", "s"), (fil, "dir", "other")):
+                    if rng.random() < (0.5 if tier == "quick" else 1.0):
+                        cases.append({"f": "xfer", "src": src, "dst": dst, "sname": "s", "dname": dname, "dstate": dstate,
+                                      "w": rng.random() < 0.5, "tree": tree})
+            for (src, d0, d1) in FANOUT:
+                for tree, dstate, dname in ((small, "absent", "other"), (small, "dir", "s"), (fil, "absent", "s")):
+                    if rng.random() < (0.5 if tier == "quick" else 1.0):
+                        cases.append({"f": "xfer", "src": src, "dst": d0, "more": [d1], "sname": "s", "dname": dname, "dstate": dstate,
+                                      "w": rng.random() < 0.5, "tree": tree})
         for i in range({"quick": 1, "thorough": 4, "extended": 0}[tier]):
             c = self._case(rng, tier, rng.choice([("L", "R1a"), ("R1a", "L"), ("R1a", "R1a"), ("R1a", "R2a")]))
             c["sname"] = c["dname"] = rng.choice(HANGING_ROOTS)
@@ -362,39 +387,53 @@ class C22(Prop):
         self.n = 0
         os.chdir(self.scratch)
 
-        class ShRemote(BaseConnector):
-            """A 'remote' location whose file system is a directory of this host, reached only through /bin/sh:
-            run() is BaseConnector.run (persistent sh), stream commands are given to sh -c as one string, as the
-            ssh and container connectors do."""
+        import shlex as _shlex
 
-            def __init__(self, deployment_name, config_dir, locations=("a",), transferBufferSize=2 ** 16):
+        class ShRemote(BaseConnector):
+            """A 'remote' deployment reached only through /bin/sh.  Every location has its own file system: its commands run in a
+            private mount namespace (unshare -m) in which the directories of `binds` (given per location) are bind-mounted over
+            the common path names, so the same path string names different storage on different locations, as on real
+            remotes.  run() is BaseConnector.run (persistent sh), stream commands are given to sh -c as one string, as the ssh
+            and container connectors do."""
+
+            def __init__(self, deployment_name, config_dir, locations=None, transferBufferSize=2 ** 16):
                 super().__init__(deployment_name, config_dir, transferBufferSize)
-                self.locs = list(locations)
+                self.binds = dict(locations or {})          # location name -> [[storage dir, mount point], ...]
                 self.log = []
+
+            def _prefix(self, location):
+                return "".join(f"mount --bind {_shlex.quote(a)} {_shlex.quote(b)} && " for a, b in self.binds[location.name])
 
             async def deploy(self, external):
                 pass
 
             async def get_available_locations(self, service=None):
                 return {n: AvailableLocation(name=n, deployment=self.deployment_name, service=service, hostname="localhost",
-                                             local=False, slots=1) for n in self.locs}
+                                             local=False, slots=1) for n in self.binds}
 
             @classmethod
             def get_schema(cls):
-                return json.dumps({"type": "object", "properties": {"locations": {"type": "array"},
+                return json.dumps({"type": "object", "properties": {"locations": {"type": "object"},
                                                                      "transferBufferSize": {"type": "integer"}}})
+
+            async def _create_shell(self, command, location):
+                from streamflow.deployment.connector.base import SubprocessShell
+                argv = ["unshare", "-m", "/bin/sh", "-c", self._prefix(location) + "exec " + " ".join(command)]
+                process = await asyncio.create_subprocess_exec(*argv, stdin=asyncio.subprocess.PIPE, stdout=asyncio.subprocess.PIPE,
+                                                               stderr=asyncio.subprocess.DEVNULL)
+                return SubprocessShell(command=argv, buffer_size=self.transferBufferSize, process=process)
 
             async def get_stream_reader(self, command, location):
                 self.log.append(["reader", " ".join(command)])
                 return SubprocessStreamReaderWrapperContextManager(coro=asyncio.create_subprocess_exec(
-                    "/bin/sh", "-c", " ".join(command), stdin=asyncio.subprocess.DEVNULL, stdout=asyncio.subprocess.PIPE,
-                    stderr=asyncio.subprocess.DEVNULL))
+                    "unshare", "-m", "/bin/sh", "-c", self._prefix(location) + " ".join(command), stdin=asyncio.subprocess.DEVNULL,
+                    stdout=asyncio.subprocess.PIPE, stderr=asyncio.subprocess.DEVNULL))
 
             async def get_stream_writer(self, command, location):
                 self.log.append(["writer", " ".join(command)])
                 return SubprocessStreamWriterWrapperContextManager(coro=asyncio.create_subprocess_exec(
-                    "/bin/sh", "-c", " ".join(command), stdin=asyncio.subprocess.PIPE, stdout=asyncio.subprocess.DEVNULL,
-                    stderr=asyncio.subprocess.DEVNULL))
+                    "unshare", "-m", "/bin/sh", "-c", self._prefix(location) + " ".join(command), stdin=asyncio.subprocess.PIPE,
+                    stdout=asyncio.subprocess.DEVNULL, stderr=asyncio.subprocess.DEVNULL))
 
             async def run(self, location, command, **kw):
                 self.log.append(["run", " ".join(command)])
@@ -461,58 +500,131 @@ class C22(Prop):
             o["retried"] = True
         return o
 
+    def _phys(self, base, kind, logical: str) -> str:
+        """Host path of the storage behind a logical path of location `kind` (L: the path itself)."""
+        if kind == "L":
+            return logical
+        for stor, mnt in self._binds(base)[kind]:
+            if logical == mnt or logical.startswith(mnt + "/"):
+                return stor + logical[len(mnt):]
+        return logical
+
+    def _binds(self, base):
+        f = lambda k, d: os.path.join(base, "fs-" + k, d)
+        S, D = os.path.join(base, "S"), os.path.join(base, "D")
+        return {"R1a": [[f("R1a", "S"), S], [f("R1a", "D"), D], [f("R1a", "M"), os.path.join(base, "M")]],
+                "R1b": [[f("R1b", "S"), S], [f("R1b", "D"), D]],
+                "R2a": [[f("R2a", "S"), S], [f("R2a", "D"), D]],
+                # the wrapped location: its own source area, and the inner location's M mounted as its D
+                "W": [[f("W", "S"), S], [f("R1a", "M"), D]]}
+
+    def _snap_at(self, base, kind, logical: str, src: str):
+        return self._snap(self._phys(base, kind, logical).encode("utf-8", "surrogateescape"), src.encode("utf-8", "surrogateescape"))
+
+    def _follow_at(self, base, kind, logical: str, depth=0):
+        """What a reader on location `kind` sees at `logical`: symbolic links followed inside that location's file system."""
+        import stat
+        if depth > 40:
+            return {"t": "unresolved"}
+        p = self._phys(base, kind, logical).encode("utf-8", "surrogateescape")
+        try:
+            st = os.lstat(p)
+        except OSError:
+            return None
+        if stat.S_ISLNK(st.st_mode):
+            to = os.readlink(p).decode("utf-8", "surrogateescape")
+            tgt = os.path.normpath(to if to.startswith("/") else os.path.join(os.path.dirname(logical), to))
+            r = self._follow_at(base, kind, tgt, depth + 1)
+            return {"t": "unresolved"} if r is None else r
+        if stat.S_ISDIR(st.st_mode):
+            return {"t": "d", "c": [[n.decode("utf-8", "surrogateescape"),
+                                    self._follow_at(base, kind, os.path.join(logical, n.decode("utf-8", "surrogateescape")), depth + 1)]
+                                   for n in sorted(os.listdir(p))]}
+        if stat.S_ISREG(st.st_mode):
+            with open(p, "rb") as f:
+                return {"t": "f", "c": ctok(f.read()), "x": bool(st.st_mode & 0o100)}
+        return {"t": "other"}
+
     async def _run(self, c, budget):
         asyncio = self.asyncio
         self.n += 1
         base = os.path.join(self.scratch, f"c{self.n}")
         os.makedirs(base)
         os.chdir(base)        # whatever a mangled command line drops in the working directory stays in the scratch area
+        binds = self._binds(base)
+        for k, bl in binds.items():
+            for stor, mnt in bl:
+                os.makedirs(stor, exist_ok=True)
+                os.makedirs(mnt, exist_ok=True)
         ctx = self.build_context({"database": {"type": "default", "config": {"connection": ":memory:"}}, "path": base})
         dm = ctx.deployment_manager
         await dm.deploy(self.DC(name="__LOCAL__", type="local", config={}, external=True, lazy=False, workdir=base))
-        await dm.deploy(self.DC(name="r1", type="c22sh", config={"locations": ["a", "b"]}, external=False, lazy=False, workdir=base))
-        await dm.deploy(self.DC(name="r2", type="c22sh", config={"locations": ["a"]}, external=False, lazy=False, workdir=base))
+        await dm.deploy(self.DC(name="r1", type="c22sh", config={"locations": {"a": binds["R1a"], "b": binds["R1b"]}},
+                                external=False, lazy=False, workdir=base))
+        await dm.deploy(self.DC(name="r2", type="c22sh", config={"locations": {"a": binds["R2a"]}}, external=False, lazy=False,
+                                workdir=base))
+        await dm.deploy(self.DC(name="w1", type="c22sh", config={"locations": {"wa": binds["W"]}}, external=False, lazy=False,
+                                workdir=base))
         locs = {"L": self.EL(name="__LOCAL__", deployment="__LOCAL__", local=True), "R1a": self.EL(name="a", deployment="r1"),
                 "R1b": self.EL(name="b", deployment="r1"), "R2a": self.EL(name="a", deployment="r2")}
-        sroot, droot = os.path.join(base, "S"), os.path.join(base, "D")
-        os.makedirs(sroot)
-        os.makedirs(droot)
-        src, dst = os.path.join(sroot, c["sname"]), os.path.join(droot, c["dname"])
-        srcb, dstb = src.encode("utf-8", "surrogateescape"), dst.encode("utf-8", "surrogateescape")
+        # a location of deployment w1 that wraps r1/a: what it sees at <base>/D is r1/a's <base>/M
+        locs["W"] = self.EL(name="wa", deployment="w1", wraps=locs["R1a"], mounts={os.path.join(base, "D"): os.path.join(base, "M")})
+        dkinds = [c["dst"]] + list(c.get("more", []))
+        src, dst = os.path.join(base, "S", c["sname"]), os.path.join(base, "D", c["dname"])
+        srcp = self._phys(base, c["src"], src).encode("utf-8", "surrogateescape")
         later = []
-        self._build(srcb, c["tree"], srcb, later)
+        self._build(srcp, c["tree"], srcp, later)
         for a, b in later:
             os.link(a, b)
-        if c["dstate"] != "absent":
-            os.mkdir(dstb)
-            if c["dstate"] == "dirpre":
-                with open(os.path.join(dstb, b"zz keep"), "wb") as f:
-                    f.write(b"keep")
-        sl, dl = locs[c["src"]], locs[c["dst"]]
+        for k in dkinds:
+            if c["dstate"] != "absent":
+                dp = self._phys(base, k, dst).encode("utf-8", "surrogateescape")
+                os.mkdir(dp)
+                if c["dstate"] == "dirpre":
+                    with open(os.path.join(dp, b"zz keep"), "wb") as f:
+                        f.write(b"keep")
+        sl = locs[c["src"]]
         ctx.data_manager.register_path(location=sl, path=src, relpath=src, data_type=self.DataType.PRIMARY)
         out = {"err": None}
         try:
-            await asyncio.wait_for(ctx.data_manager.transfer_data(src_location=sl, src_path=src, dst_locations=[dl], dst_path=dst,
-                                                                  writable=c["w"]), budget)
+            await asyncio.wait_for(ctx.data_manager.transfer_data(src_location=sl, src_path=src, dst_locations=[locs[k] for k in dkinds],
+                                                                  dst_path=dst, writable=c["w"]), budget)
         except asyncio.TimeoutError:
             out["err"] = "timeout"
         except Exception as e:  # noqa
             out["err"] = type(e).__name__
             out["msg"] = str(e).replace(self.scratch, "$")[:300]
         inner = os.path.join(dst, c["sname"])
-        out["dst"] = self._snap(dstb, srcb)
-        out["src"] = self._snap(srcb, srcb)
-        reg = []
-        for label, p in (("dst", dst), ("dst/s", inner)):
-            try:
-                ls = ctx.data_manager.get_data_locations(path=p, deployment=dl.deployment, location_name=dl.name)
-            except Exception:  # noqa
-                ls = []
-            for ty in sorted({l.data_type.name + ("" if l.available.is_set() else ":unavailable") for l in ls if l.path == p}):
-                reg.append(f"{label}:{ty}")
-        out["reg"] = reg
-        out["seen"] = {"dst": self._follow(dstb), "dst/s": self._follow(inner.encode("utf-8", "surrogateescape"))}
-        out["cmds"] = [[k, s.replace(self.scratch, "$")] for d in ("r1", "r2") for (k, s) in dm.get_connector(d).log]
+
+        def observe(k):
+            dl = locs[k]
+            d = {"dst": self._snap_at(base, k, dst, src)}
+            reg = []
+            for label, p in (("dst", dst), ("dst/s", inner)):
+                try:
+                    ls = ctx.data_manager.get_data_locations(path=p, deployment=dl.deployment, location_name=dl.name)
+                except Exception:  # noqa
+                    ls = []
+                for ty in sorted({l.data_type.name + ("" if l.available.is_set() else ":unavailable") for l in ls if l.path == p}):
+                    reg.append(f"{label}:{ty}")
+            d["reg"] = reg
+            d["seen"] = {"dst": self._follow_at(base, k, dst), "dst/s": self._follow_at(base, k, inner)}
+            if k == "W":      # what the registry says about the inner location's view of the same data
+                ireg = []
+                for label, p in (("dst", dst), ("dst/s", inner)):
+                    ip = p.replace(os.path.join(base, "D"), os.path.join(base, "M"), 1)
+                    try:
+                        ls = ctx.data_manager.get_data_locations(path=ip, deployment="r1", location_name="a")
+                    except Exception:  # noqa
+                        ls = []
+                    if any(l.path == ip for l in ls):
+                        ireg.append(label)
+                d["inner_reg"] = ireg
+            return d
+        out.update(observe(dkinds[0]))
+        out["more"] = [observe(k) for k in dkinds[1:]]
+        out["src"] = self._snap_at(base, c["src"], src, src)
+        out["cmds"] = [[k, s.replace(self.scratch, "$")] for d in ("r1", "r2", "w1") for (k, s) in dm.get_connector(d).log]
         try:
             await asyncio.wait_for(dm.undeploy_all(), 8 if out["err"] != "timeout" else 2)
         except Exception:  # noqa
@@ -531,30 +643,50 @@ class C22(Prop):
     def _expected_place(self, c):
         return "dst" if c["dstate"] == "absent" else "dst/s"
 
+    def _dests(self, c, o):
+        return [(c["dst"], o)] + list(zip(c.get("more", []), o.get("more", [])))
+
+    def _judge(self, c, o, k, od):
+        want = resolve(canon_in(c["tree"]))
+        place = self._expected_place(c)
+        got = od["seen"][place]
+        if got != want:
+            other = "dst/s" if place == "dst" else "dst"
+            where = f" (it is at {other} instead)" if od["seen"].get(other) == want else ""
+            return ("content", f"on {k}: tree read at {place} differs from the source{where}: got {str(got)[:200]} want {str(want)[:200]}")
+        top = od["dst"] if place == "dst" else next((x for n, x in (od["dst"] or {}).get("c", []) if n == c["sname"]), None)
+        if c["w"] and top is not None and top["t"] == "l":
+            return ("writable-link", f"on {k}: a writable transfer produced a symbolic link to the source")
+        if not any(r.startswith(place + ":") and not r.endswith(":unavailable") for r in od["reg"]):
+            return ("not-registered", f"on {k}: destination {place} is not registered as an available copy on the destination "
+                                      f"location: {od['reg']}")
+        for r in od["reg"]:
+            label = r.split(":")[0]
+            if od["seen"].get(label) is None:
+                return ("registered-missing", f"on {k}: {label} is registered as a copy on the destination location but nothing exists "
+                                              f"there: {od['reg']}")
+        if c["dstate"] == "dirpre":
+            keep = next((x for n, x in (od["dst"] or {}).get("c", []) if n == "zz keep"), None)
+            if keep != {"t": "f", "c": ctok(b"keep"), "x": False}:
+                return ("frame", f"on {k}: an unrelated entry of the existing destination directory was changed")
+        return None
+
+    def _first_failure(self, c, o):
+        if o["err"]:
+            return (c["dst"], ("transfer-fails", f"transfer_data raised {o['err']}: {o.get('msg', '')}"))
+        if o["src"] != canon_in(c["tree"]):
+            return (c["dst"], ("source-modified", "the source tree changed during the transfer"))
+        for k, od in self._dests(c, o):
+            v = self._judge(c, o, k, od)
+            if v:
+                return (k, v)
+        return None
+
     def oracle(self, c, o):
         if "crash" in o or "hang" in o:
             return ("crash", f"harness/implementation crashed or hung: {str(o)[:300]}")
-        want = resolve(canon_in(c["tree"]))
-        place = self._expected_place(c)
-        if o["err"]:
-            return ("transfer-fails", f"transfer_data raised {o['err']}: {o.get('msg', '')}")
-        if o["src"] != canon_in(c["tree"]):
-            return ("source-modified", "the source tree changed during the transfer")
-        got = o["seen"][place]
-        if got != want:
-            other = "dst/s" if place == "dst" else "dst"
-            where = f" (it is at {other} instead)" if o["seen"].get(other) == want else ""
-            return ("content", f"tree read at {place} differs from the source{where}: got {str(got)[:200]} want {str(want)[:200]}")
-        top = o["dst"] if place == "dst" else next((x for n, x in (o["dst"] or {}).get("c", []) if n == c["sname"]), None)
-        if c["w"] and top is not None and top["t"] == "l":
-            return ("writable-link", "a writable transfer produced a symbolic link to the source")
-        if not any(r.startswith(place + ":") and not r.endswith(":unavailable") for r in o["reg"]):
-            return ("not-registered", f"destination {place} is not registered as an available copy on the destination location: {o['reg']}")
-        if c["dstate"] == "dirpre":
-            keep = next((x for n, x in (o["dst"] or {}).get("c", []) if n == "zz keep"), None)
-            if keep != {"t": "f", "c": ctok(b"keep"), "x": False}:
-                return ("frame", "an unrelated entry of the existing destination directory was changed")
-        return None
+        f = self._first_failure(c, o)
+        return f[1] if f else None
 
     def _root_class(self, c):
         return "safe-root" if shell_safe(c["sname"]) and shell_safe(c["dname"]) else "unsafe-root"
@@ -563,12 +695,18 @@ class C22(Prop):
         kind = "file" if c["tree"]["t"] == "f" else "dir"
         ren = "rename" if c["sname"] != c["dname"] else "same"
         d = "absent" if c["dstate"] == "absent" else "dir"
-        if self._root_class(c) == "unsafe-root" and ROUTES[(c["src"], c["dst"])] != "LL":
-            return f"xfer/{ROUTES[(c['src'], c['dst'])]}/unsafe-root"
+        k = c["dst"]
+        if "crash" not in o and "hang" not in o:
+            f = self._first_failure(c, o)
+            if f:
+                k = f[0]
+        route = ALLROUTES[(c["src"], k)]
+        if self._root_class(c) == "unsafe-root" and route != "LL":
+            return f"xfer/{route}/unsafe-root"
         x = ""
         if clause == "content" and kind == "file":
             x = "/exec" if c["tree"]["x"] else "/noexec"
-        return f"xfer/{clause}/{ROUTES[(c['src'], c['dst'])]}/{kind}/{d}/{ren}/{'w' if c['w'] else 'ro'}{x}"
+        return f"xfer/{clause}/{route}/{kind}/{d}/{ren}/{'w' if c['w'] else 'ro'}{x}"
 
     # ------------------------------------------------------------------------------------------ model side
     def _coq_tree(self, t):
@@ -592,21 +730,36 @@ class C22(Prop):
     def coq_case(self, c, o):
         if "crash" in o or "hang" in o:
             return None
-        if self._root_class(c) != "safe-root" and ROUTES[(c["src"], c["dst"])] != "LL":
-            return None          # the model takes command lines as reaching their tools verbatim
-        t = self._coq_tree(canon_in(c["tree"]))
-        if o["dst"] is None:
-            od = "None"
-        else:
-            s = self._coq_tree(o["dst"])
-            if s is None:
-                return None
-            od = f"(Some {s})"
-        pre = {"absent": "None", "dir": "(Some (Dir []))",
-               "dirpre": f"(Some (Dir [({coq_str('zz keep')}, File {coq_str(ctok(b'keep'))} false)]))"}[c["dstate"]]
-        reg = coq_list([coq_str(r) for r in o["reg"]])
-        return (f"CXfer {ROUTES[(c['src'], c['dst'])]} {coq_bool(c['w'])} {pre} {coq_str(c['sname'])} {coq_str(c['dname'])} {t} "
-                f"{coq_bool(bool(o['err']))} {od} {reg}")
+        terms = []
+        for k, od in self._dests(c, o):
+            route = ALLROUTES[(c["src"], k)]
+            if self._root_class(c) != "safe-root" and route != "LL":
+                return None          # the model takes command lines as reaching their tools verbatim
+            t = self._coq_tree(canon_in(c["tree"]))
+            if od["dst"] is None:
+                odst = "None"
+            else:
+                x = self._coq_tree(od["dst"])
+                if x is None:
+                    return None
+                odst = f"(Some {x})"
+            pre = {"absent": "None", "dir": "(Some (Dir []))",
+                   "dirpre": f"(Some (Dir [({coq_str('zz keep')}, File {coq_str(ctok(b'keep'))} false)]))"}[c["dstate"]]
+            regl = od["reg"]
+            if route == "RRsame" and k == "W" and not c["w"] and c["tree"]["t"] == "d" and c["dstate"] == "absent" \
+                    and regl == ["dst:PRIMARY", "dst/s:PRIMARY"]:
+                # race in transfer_data (known finding registered-missing): on a wrapped location `ln -snf` (the location's
+                # shell) and the `test -d dst` of is_dir (the inner location's shell) run concurrently; when ln wins, dst is
+                # already a link to a directory and dst/s gets registered.  Both outcomes are the code's; only the tree is
+                # compared in this cell.
+                regl = ["dst:SYMBOLIC_LINK"]
+            reg = coq_list([coq_str(r) for r in regl])
+            terms.append(f"(CXfer {route} {coq_bool(c['w'])} {pre} {coq_str(c['sname'])} {coq_str(c['dname'])} {t} "
+                         f"{coq_bool(bool(o['err']))} {odst} {reg})")
+        term = terms[0]
+        for x in terms[1:]:
+            term = f"(CBoth {term} {x})"
+        return term
 
     def nontrivial(self, c):
         t = c["tree"]
